@@ -394,3 +394,163 @@ Definition rt_status (ts : list str) (prog : option (str * option str)) (n : nvf
   end.
 Definition rt_check (ts : list str) (prog : option (str * option str)) (n : nvfile) : bool :=
   N.eqb (rt_status ts prog n) 0.
+
+(* ---------------------------------------------------------------------------------------- *)
+(* "already in dependency order": every dependency of the k-th object has a smaller position
+   (what the pre-pass leaves behind; decided on the value) *)
+Definition ordered_by (deps : nat -> list nat) (len : nat) : bool :=
+  forallb (fun o => forallb (fun d => Nat.ltb d o) (deps o)) (seq 0 len).
+Definition ordered (n : nvfile) : bool :=
+  ordered_by (lib_deps (nf_libs n)) (List.length (nf_libs n)) &&
+  forallb (fun L => ordered_by (cell_deps L) (List.length (li_cells L))) (nf_libs n).
+
+(* ---------------------------------------------------------------------------------------- *)
+(* [writable]: the decidable class of netlist values for which write-then-read is claimed
+   (Props/C03.v C03_emit_roundtrip_full; every run evaluates writable -> rt_check and
+   writable -> the implementation's round trip holds, on every generated netlist).
+   What it asks is what the READER checks on the written file, clause by clause:
+   - identifiers: legal EDIF identifiers (namespace policy), one token, ASCII, no * or ?
+     (the get_* lookups take them for patterns); property identifiers: identifier tokens;
+   - names, original property identifiers, string values: printable ASCII or tab (the reader's
+     string token), net names without * and ?;
+   - siblings: identifiers pairwise different case-insensitively, names pairwise different;
+   - ports: direction 0..3, width 1..65536, a non-array port has one pin;
+   - instances: the referenced cell is declared BEFORE the instantiating cell (same library or
+     an earlier one) and is named by its exact identifiers;
+   - cables (Proofs/EdifNetsProofs.wf_cell): at least one wire; a bus has an identifier that is not
+     "&" / "&_.." and a name not starting with a backslash, upper index <= 65536; a scalar cable
+     has lower index 0 and is not named like a bit of a bus; the generated bit identifiers are legal;
+   - pins: port / instance found under its exact identifier, index below the width, every pin
+     on at most one wire;
+   - the top instance names a declared cell; six integer timestamp fields.
+   Excluded on purpose = the open findings and unsupported forms: "&_" buses (C03-K..), bit-like
+   scalar names, names with * ?, non-ASCII text, \n \r in strings. *)
+Definition text_ok (s : str) : bool := forallb (fun c => N.eqb c 9 || ((32 <=? c) && (c <=? 126))) s.
+Definition ascii_ok (s : str) : bool := forallb (fun c => c <? 128) s.
+Definition ident_w (i : str) : bool :=
+  NS.check_edif_identifier i && ident_tok_ok i && atom_ok i && negb (has_wild i) && ascii_ok i.
+Definition propid_w (i : str) : bool := ident_tok_ok i && atom_ok i && ascii_ok i.
+Definition elem_w (ident name : str) : bool := ident_w ident && text_ok name.
+
+Fixpoint uniq_x (l : list str) : bool :=
+  match l with
+  | [] => true
+  | a :: l' => negb (existsb (str_eqb a) l') && uniq_x l'
+  end.
+Fixpoint uniq_pd (l : list pd) : bool :=
+  match l with
+  | [] => true
+  | a :: l' => negb (existsb (pd_eqb a) l') && uniq_pd l'
+  end.
+
+Definition prop_w (p : nvprop) : bool :=
+  propid_w (pr_ident p) &&
+  match pr_orig p with Some o => text_ok o | None => true end &&
+  match pr_val p with PVStr s => text_ok s | _ => true end.
+
+Definition port_w (p : nvport) : bool :=
+  elem_w (po_ident p) (po_name p) && (po_dir p <=? 3) && (1 <=? po_width p) && (po_width p <=? 65536) &&
+  (po_array p || N.eqb (po_width p) 1).
+
+(* the cell an instance reference names, as the reader resolves it while reading cell number
+   [length cells] of library [lib]: [prev] = the libraries before it *)
+Definition ref_cell (prev : list nvlib) (lib : str) (cells : list nvcell) (r : option (str * str)) : option nvcell :=
+  match r with
+  | None => None
+  | Some (l, c) =>
+    let cs := if ident_eqb lib l then (if str_eqb lib l then Some cells else None)
+              else match find_lib l prev with
+                   | Some L => if str_eqb (li_ident L) l then Some (li_cells L) else None
+                   | None => None
+                   end in
+    match cs with
+    | Some cs => match find_cell c cs with
+                 | Some C => if str_eqb (ce_ident C) c then Some C else None
+                 | None => None
+                 end
+    | None => None
+    end
+  end.
+
+Definition inst_w (prev : list nvlib) (lib : str) (cells : list nvcell) (i : nvinst) : bool :=
+  elem_w (in_ident i) (in_name i) && forallb prop_w (in_props i) &&
+  match ref_cell prev lib cells (in_ref i) with Some _ => true | None => false end.
+
+Definition port_pin_w (ports : list nvport) (pt : str) (k : N) : bool :=
+  match find_port pt ports with
+  | Some po => str_eqb (po_ident po) pt && (k <? po_width po)
+  | None => false
+  end.
+
+Definition pin_w (prev : list nvlib) (lib : str) (cells : list nvcell) (c : nvcell) (p : pd) : bool :=
+  match p with
+  | PTop pt k => port_pin_w (ce_ports c) pt k
+  | PInst i pt k =>
+    match find_inst_v i (ce_insts c) with
+    | Some x => str_eqb (in_ident x) i &&
+                match ref_cell prev lib cells (in_ref x) with
+                | Some C => port_pin_w (ce_ports C) pt k
+                | None => false
+                end
+    | None => false
+    end
+  end.
+
+Definition cab_w (e : entry pd) : bool :=
+  text_ok (e_name e) && negb (has_wild (e_name e)) && negb (is_nil (c_wires (e_cab e))) &&
+  forallb (fun n : str * str * list pd => ident_w (fst (fst n))) (emit_cable (e_ident e) (e_name e) (e_cab e)) &&
+  if is_busb (e_cab e)
+  then negb (starts_amp_us (e_ident e ++ [c_us])) &&
+       match e_name e with c :: _ => negb (N.eqb c c_bsl) | [] => true end &&
+       (c_lower (e_cab e) + N.of_nat (List.length (c_wires (e_cab e))) <=? 65536)
+  else N.eqb (c_lower (e_cab e)) 0 &&
+       match net_bit (e_ident e) (e_name e) with Some (None, _, _) => true | _ => false end.
+
+Definition cell_w (prev : list nvlib) (lib : str) (cells : list nvcell) (c : nvcell) : bool :=
+  elem_w (ce_ident c) (ce_name c) &&
+  forallb port_w (ce_ports c) && uniq_ci (map po_ident (ce_ports c)) && uniq_x (map po_name (ce_ports c)) &&
+  forallb (inst_w prev lib cells) (ce_insts c) &&
+  uniq_ci (map in_ident (ce_insts c)) && uniq_x (map in_name (ce_insts c)) &&
+  forallb cab_w (ce_cabs c) &&
+  uniq_ci (map (@e_ident pd) (ce_cabs c)) && uniq_x (map (@e_name pd) (ce_cabs c)) &&
+  forallb (pin_w prev lib cells c) (flat_map (fun e : entry pd => List.concat (c_wires (e_cab e))) (ce_cabs c)) &&
+  uniq_pd (flat_map (fun e : entry pd => List.concat (c_wires (e_cab e))) (ce_cabs c)).
+
+Fixpoint cells_w (prev : list nvlib) (lib : str) (done todo : list nvcell) : bool :=
+  match todo with
+  | [] => true
+  | c :: r => cell_w prev lib done c && cells_w prev lib (done ++ [c]) r
+  end.
+
+Definition lib_w (prev : list nvlib) (L : nvlib) : bool :=
+  elem_w (li_ident L) (li_name L) && cells_w prev (li_ident L) [] (li_cells L) &&
+  uniq_ci (map ce_ident (li_cells L)) && uniq_x (map ce_name (li_cells L)).
+
+Fixpoint libs_w (done todo : list nvlib) : bool :=
+  match todo with
+  | [] => true
+  | L :: r => lib_w done L && libs_w (done ++ [L]) r
+  end.
+
+Definition top_w (libs : list nvlib) (t : nvtop) : bool :=
+  elem_w (tp_ident t) (tp_name t) &&
+  match find_lib (tp_lib t) libs with
+  | Some L => str_eqb (li_ident L) (tp_lib t) &&
+              match find_cell (tp_cell t) (li_cells L) with
+              | Some C => str_eqb (ce_ident C) (tp_cell t)
+              | None => false
+              end
+  | None => false
+  end.
+
+Definition params_w (ts : list str) (prog : option (str * option str)) : bool :=
+  Nat.eqb (List.length ts) 6 && forallb (fun a => is_int_atom (Atom a) && atom_ok a && ascii_ok a) ts &&
+  match prog with
+  | None => true
+  | Some (p, v) => str_tok_ok p && match v with Some v => str_tok_ok v | None => true end
+  end.
+
+Definition writable (n : nvfile) : bool :=
+  elem_w (nf_ident n) (nf_name n) && libs_w [] (nf_libs n) &&
+  uniq_ci (map li_ident (nf_libs n)) && uniq_x (map li_name (nf_libs n)) &&
+  match nf_top n with Some t => top_w (nf_libs n) t | None => false end.
